@@ -226,7 +226,7 @@ def step (_ : Unit) (line : String) : Unit × String :=
        | some md =>
          -- the harness builds the mapping entry by entry: dict semantics
          let md : Metadata := md.foldl (fun d kv => dictSet kv.1 kv.2 d) []
-         if md.all (fun kv => kv.1.valid) then "ok " ++ tabJoin ((Metadata.serialize md).map str) else "ERR:ValueError"
+         if md.all (fun kv => kv.1.valid && valueOk kv.2) then "ok " ++ tabJoin ((Metadata.serialize md).map str) else "ERR:ValueError"
        | none => "bad-op")
     | "MD" :: ls =>
       (match Metadata.deserialize (ls.map String.toList) with
